@@ -71,22 +71,25 @@ def verifyCommit (verify : Verify) (vals : List Val) (chain : List UInt8) (bid :
 /-- `ValidatorSet.GetByAddress` on a set sorted by distinct addresses: the validator with that address -/
 def findByAddr (vals : List Val) (a : List UInt8) : Option Val := vals.find? (fun v => v.addr = a)
 
-/-- the slot loop of `VerifyCommitAny`: the validator is looked up by the ADDRESS WRITTEN IN THE PRECOMMIT (unknown
-addresses are skipped); nothing remembers which validators were already counted -/
+/-- the slot loop of `VerifyCommitAny` (after fix ddc1c92): the validator is looked up by the ADDRESS WRITTEN IN THE
+PRECOMMIT (unknown addresses are skipped); `seen` remembers the validators already met (`seen[valIdx]`, keyed here by the
+address, which identifies the validator in a set with distinct addresses) and is marked BEFORE the signature test; a
+validator met again is skipped -/
 def tallyLoopAny (verify : Verify) (chain : List UInt8) (bid : BlockID) (h : Nat) (r : Int) (vals : List Val) :
-    List (Option Vote) → Int → Except VErr Int
-  | [], acc => .ok acc
-  | none :: ps, acc => tallyLoopAny verify chain bid h r vals ps acc
-  | some v :: ps, acc =>
+    List (Option Vote) → List (List UInt8) → Int → Except VErr Int
+  | [], _, acc => .ok acc
+  | none :: ps, seen, acc => tallyLoopAny verify chain bid h r vals ps seen acc
+  | some v :: ps, seen, acc =>
     if v.height ≠ h then .error .height
     else if v.round ≠ r then .error .round
     else if v.type ≠ typePrecommit then .error .type
     else match findByAddr vals v.addr with
-      | none => tallyLoopAny verify chain bid h r vals ps acc
+      | none => tallyLoopAny verify chain bid h r vals ps seen acc
       | some val =>
-        if !verify val.key (msgOf chain v) v.sig then .error .sig
-        else if bid ≠ v.bid then tallyLoopAny verify chain bid h r vals ps acc
-        else tallyLoopAny verify chain bid h r vals ps (wrapI64 (acc + val.power))
+        if seen.contains v.addr then tallyLoopAny verify chain bid h r vals ps seen acc
+        else if !verify val.key (msgOf chain v) v.sig then .error .sig
+        else if bid ≠ v.bid then tallyLoopAny verify chain bid h r vals ps (v.addr :: seen) acc
+        else tallyLoopAny verify chain bid h r vals ps (v.addr :: seen) (wrapI64 (acc + val.power))
 
 /-- `ValidatorSet.VerifyCommitAny` (no caller in the tree; exported) -/
 def verifyCommitAny (verify : Verify) (vals : List Val) (chain : List UInt8) (bid : BlockID) (h : Nat) (c : Commit) :
@@ -94,7 +97,7 @@ def verifyCommitAny (verify : Verify) (vals : List Val) (chain : List UInt8) (bi
   if vals.length ≠ c.precommits.length then .error .size
   else if h ≠ height c then .error .height
   else
-    match tallyLoopAny verify chain bid h (round c) vals c.precommits 0 with
+    match tallyLoopAny verify chain bid h (round c) vals c.precommits [] 0 with
     | .error e => .error e
     | .ok tallied => if verifyCommitAccepts tallied (totalPower vals) then .ok () else .error .power
 
